@@ -168,7 +168,7 @@ def hex_id_to_dev_id(device_hex: str, friendly_id: bool = False) -> DeviceIdT:
     dev_type = f"{(_tmp & 0xFC0000) >> 18:02d}"
 
     if friendly_id:
-        dev_type = DEV_TYPE_MAP.get(dev_type, f"{dev_type:<3}")
+        dev_type = DEV_TYPE_MAP.get(dev_type, f"{dev_type:>3}")
 
     return f"{dev_type}:{_tmp & 0x03FFFF:06d}"  # type: ignore[return-value]
 
